@@ -11,10 +11,22 @@ import (
 	"strings"
 )
 
-const RepoDir = "/repo"
+// RepoDir / VerifDir can be redirected (VERIF_REPO_DIR, VERIF_DIR) for background runs on
+// snapshots; the registered commands always use /repo and /verif.
+var RepoDir = "/repo"
+
 const Module = "github.com/hujm2023/go-sms-protocol"
 
 var VerifDir = "/verif"
+
+func init() {
+	if d := os.Getenv("VERIF_REPO_DIR"); d != "" {
+		RepoDir = d
+	}
+	if d := os.Getenv("VERIF_DIR"); d != "" {
+		VerifDir = d
+	}
+}
 
 var pkgRe = regexp.MustCompile(`(?m)^package\s+(\w+)`)
 
